@@ -374,6 +374,9 @@ func runC14(c *Ctx) {
 	}
 
 	// ---------------------------------------------------------------- R7
+	c.rule("R8", "raw replies are not indexed before Unpack unless a length guard covers the index (garbage of any length is an error, not a panic)", 3)
+	checkRawIndexGuarded(c, p.funcsIn(relForward), nil)
+
 	c.rule("R7", "tag subsets: unknown tag is an error; no tag means all upstreams", 2)
 	if q := c.fn(relForward, "Forward", "QuickConfigureExec"); q != nil {
 		unknownErr, allDefault := false, false
